@@ -13,7 +13,7 @@ ID = "C14"
 LEVEL = "exploration"
 TECHNIQUE = "shadow-registry oracle after every operation + icontract class invariant on Model"
 RULE = ("alphabet {create a, create b, create p (an agent whose initialize() creates a companion agent), a creation whose initialize() raises, a creation whose initialize() deletes the oldest agent of its own type, delete_agents(agent_ids(a)) with the model's own list, create_agents(a,2), delete oldest, delete newest, delete two ids, delete unknown id, "
-        "configure_agents, Model.configure(dictionary), reset, flip state, an agent whose constructor creates another agent, two transient agents that delete themselves in their reset_cache() hook when idle, Model.reset_cache()}: ALL sequences of length<=3 (quick) / <=4 (thorough), plus 2500 / 60000 seeded random sequences "
+        "configure_agents, Model.configure(dictionary), reset, flip state, an agent whose constructor creates another agent, a configuration that fails half way, two transient agents that delete themselves in their reset_cache() hook when idle, Model.reset_cache()}: ALL sequences of length<=3 (quick) / <=4 (thorough), plus 2500 / 60000 seeded random sequences "
         "of length 10-40; after every operation agent(id) for every id ever issued, agent_ids/agent_count per type, "
         "agent_count_per_state and next_agent per (type,state), random_agents. distinct_nontrivial = distinct operation "
         "sequences that contain at least one deletion/reconfiguration followed by a query on a non-empty population.")
@@ -22,7 +22,7 @@ REQUIRED = {"queries": 10000, "invariant_evaluations": 1000}
 BUDGET_S = {"quick": 100, "thorough": 1200}
 
 OPS = ["create_a", "create_b", "create_a2", "del_oldest", "del_newest", "del_two", "del_unknown", "configure", "reset", "flip", "create_p", "del_all_a_alias", "create_fail", "configure_dict", "create_r",
-       "create_t2", "soft_reset", "create_q"]
+       "create_t2", "soft_reset", "create_q", "configure_fail"]
 TYPES = ("a", "b", "p", "x", "r", "t", "q")
 STATES = ["active", "idle"]
 
@@ -222,6 +222,24 @@ def apply(m, sh, op, counters):
             if ag.id in sh.issued:
                 return dict(kind="id-reused", id=ag.id)
             sh.created(ag, ag.agent_type)
+    elif name == "configure_fail":
+        # a configuration that cannot be applied (its second entry names a type without a factory / a type whose set-up fails): whatever
+        # population the model is left with - the old one, or the part of the new one built so far - every query must tell the same story about it
+        bad = [{"name": "a", "count": 1}, {"name": "nope", "count": 1}] if len(sh.issued) % 2 == 0 else [{"name": "b", "count": 2}, {"name": "x", "count": 1}]
+        try:
+            m.configure_agents(bad)
+            return dict(kind="failing-configuration-did-not-raise")
+        except KeyError:
+            pass
+        old = dict(sh.live)
+        sh.live.clear()
+        for ag in m.agents:
+            if ag.id in old:
+                sh.live[ag.id] = [ag.agent_type, ag.state]
+            elif ag.id in sh.issued:
+                return dict(kind="id-reused", id=ag.id)
+            else:
+                sh.created(ag, ag.agent_type)
     elif name == "reset":
         m.reset()
         sh.live.clear()
